@@ -307,6 +307,54 @@ int main() {
   if (!panicked) PROP(r == (b0.f0 == o0.f0), "no fault: equal exactly when the sequences are equal (here: equal lengths)");
   final_drop(&b);
 
+#elif defined(S_PUSH_BACK) || defined(S_PUSH_FRONT) || defined(S_TRY_PUSH_BACK) || defined(S_TRY_PUSH_FRONT) || defined(S_POP_BACK) || defined(S_POP_FRONT) || defined(S_REMOVE)
+  /* C01/C02 cross-check through the second engine: no fault; result and contents against the abstract sequence */
+  cb_t b; init_state(&b, 0, &CEX_start, &CEX_size);
+  size_t size0 = b.f0;
+  size_t a = nondet_size_t(); CEX_a = a;
+  unsigned char want[NN + 2]; size_t wn = 0;          /* expected ids afterwards */
+  long rdisc = 0; unsigned char rid = 0;              /* expected result: Some/Err(rid) or None/Ok */
+  tok_t item; item.id = 32; LEDGER[32] = LIVE;
+#if defined(S_PUSH_BACK)
+  option_tok r = mir_CircularBuffer_push_back(&b, item);
+  if (NN == 0) { rdisc = 1; rid = 32; }
+  else if (size0 == NN) { rdisc = 1; rid = 0; for (size_t i = 1; i < size0; i++) want[wn++] = i; want[wn++] = 32; }
+  else { for (size_t i = 0; i < size0; i++) want[wn++] = i; want[wn++] = 32; }
+#elif defined(S_PUSH_FRONT)
+  option_tok r = mir_CircularBuffer_push_front(&b, item);
+  if (NN == 0) { rdisc = 1; rid = 32; }
+  else if (size0 == NN) { rdisc = 1; rid = size0 - 1; want[wn++] = 32; for (size_t i = 0; i + 1 < size0; i++) want[wn++] = i; }
+  else { want[wn++] = 32; for (size_t i = 0; i < size0; i++) want[wn++] = i; }
+#elif defined(S_TRY_PUSH_BACK)
+  result_unit_tok r = mir_CircularBuffer_try_push_back(&b, item);
+  if (size0 == NN) { rdisc = 1; rid = 32; for (size_t i = 0; i < size0; i++) want[wn++] = i; }
+  else { for (size_t i = 0; i < size0; i++) want[wn++] = i; want[wn++] = 32; }
+#elif defined(S_TRY_PUSH_FRONT)
+  result_unit_tok r = mir_CircularBuffer_try_push_front(&b, item);
+  if (size0 == NN) { rdisc = 1; rid = 32; for (size_t i = 0; i < size0; i++) want[wn++] = i; }
+  else { want[wn++] = 32; for (size_t i = 0; i < size0; i++) want[wn++] = i; }
+#elif defined(S_POP_BACK)
+  option_tok r = mir_CircularBuffer_pop_back(&b);
+  if (size0 > 0) { rdisc = 1; rid = size0 - 1; for (size_t i = 0; i + 1 < size0; i++) want[wn++] = i; }
+#elif defined(S_POP_FRONT)
+  option_tok r = mir_CircularBuffer_pop_front(&b);
+  if (size0 > 0) { rdisc = 1; rid = 0; for (size_t i = 1; i < size0; i++) want[wn++] = i; }
+#else
+  option_tok r = mir_CircularBuffer_remove(&b, a);
+  if (a < size0) { rdisc = 1; rid = a; for (size_t i = 0; i < size0; i++) if (i != a) want[wn++] = i; }
+  else { for (size_t i = 0; i < size0; i++) want[wn++] = i; }
+#endif
+  panicked = UNWINDING; UNWINDING = 0; fired = 0;
+  PROP(!panicked, "the operation is total");
+  PROP(r.disc == rdisc, "result: Some/Err exactly when the abstract sequence says so");
+  if (rdisc == 1) PROP(r.v.id == rid, "result: exactly the displaced / removed / rejected element");
+  PROP(DROP_N == 0, "the operation destroys nothing");
+  PROP(b.f0 == wn, "length as specified");
+  check_valid(&b);
+  for (size_t i = 0; i < NN; i++) if (i < wn) PROP(SLOT(&b, i).id == want[i], "contents as specified, in order");
+  WIT(rdisc == 1 && size0 == NN && NN > 1 && CEX_start > 0, "[any] the operation on a full, rotated buffer is reachable");
+  WIT(rdisc == 0, "[any] the None / Ok case is reachable");
+
 #elif defined(S_FROM_ARRAY)
   /* C05: destructor of a discarded element panics */
   choose_fault(F_DROP, F_DROP);
